@@ -47,6 +47,10 @@ pub struct Case {
     /// applied to all three graphs before they are queried (0 = not applied)
     #[serde(default)]
     pub fix_mask_seed: u64,
+    /// two caller threads finish two different graphs at the same time (the second graph is the
+    /// reverse-complemented variant of the spec); both results are compared with their serial builds
+    #[serde(default)]
+    pub concurrent_callers: bool,
 }
 
 pub fn shuttle_config() -> Config {
@@ -161,6 +165,7 @@ fn scenario<K: Kmer + Send + Sync + Serialize + DeserializeOwned + 'static>(
     prior: Option<&BaseGraph<K, u16>>,
     extra: &[K],
     fix_mask_seed: u64,
+    concurrent_callers: bool,
     sh: &Mutex<Shared>,
 ) {
     rayon::reset_interleaving();
@@ -183,7 +188,30 @@ fn scenario<K: Kmer + Send + Sync + Serialize + DeserializeOwned + 'static>(
         None => BaseGraph::<K, u16>::new(base.stranded).finish_serial(),
     };
     rayon::reset_interleaving();
-    g1 = base.clone().finish();
+    if concurrent_callers && prior.is_some() {
+        let other = prior.unwrap();
+        let (ga, gb) = shuttle::thread::scope(|s| {
+            let ha = s.spawn(|| base.clone().finish());
+            let hb = s.spawn(|| other.clone().finish());
+            (ha.join().unwrap(), hb.join().unwrap())
+        });
+        g1 = ga;
+        // the second caller's graph must equal its own serial build too
+        let gs = other.clone().finish_serial();
+        let pp = probes(&gs, &[]);
+        if let Some(d) = first_diff(&transcript(&gb, &pp), &transcript(&gs, &pp)) {
+            let mut s = sh.lock().unwrap();
+            if s.violation.is_none() {
+                s.violation = Some(Violation::new(
+                    "parallel-vs-serial",
+                    "BaseGraph::finish called from two threads at once",
+                    format!("the second caller's graph answers differently from its serial build: {}", d),
+                ));
+            }
+        }
+    } else {
+        g1 = base.clone().finish();
+    }
     let il = rayon::interleaving();
     let mut g2 = base.clone().finish_serial();
     let mut g3 = base.clone().finish();
@@ -252,7 +280,7 @@ fn run_k<K: Kmer + Send + Sync + Serialize + DeserializeOwned + 'static>(c: &Cas
             kmer_from_bases::<K>(&b)
         })
         .collect();
-    let prior: Option<BaseGraph<K, u16>> = if c.prior_graph {
+    let prior: Option<BaseGraph<K, u16>> = if c.prior_graph || c.concurrent_callers {
         let mut spec = c.graph.clone();
         for r in spec.reads.iter_mut() {
             *r = simcore::dna::rc(r);
@@ -282,8 +310,9 @@ fn run_k<K: Kmer + Send + Sync + Serialize + DeserializeOwned + 'static>(c: &Cas
     {
         let (base, prior, extra, sh) = (base.clone(), prior.clone(), extra.clone(), sh.clone());
         let fix_mask_seed = c.fix_mask_seed;
+        let concurrent_callers = c.concurrent_callers;
         let (sched, seed, n, sl) = (c.sched.clone(), c.sched_seed, c.executions, slog.clone());
-        let r = simcore::driver::guarded(move || run_batch(&sched, seed, n, sl, move || scenario::<K>(&base, prior.as_ref().as_ref(), &extra, fix_mask_seed, &sh)));
+        let r = simcore::driver::guarded(move || run_batch(&sched, seed, n, sl, move || scenario::<K>(&base, prior.as_ref().as_ref(), &extra, fix_mask_seed, concurrent_callers, &sh)));
         if let Some(l) = &slog {
             note_schedules(rec, l);
         }
@@ -356,6 +385,7 @@ impl Harness for C19 {
             probe_seed: rng.next_u64(),
             prior_graph: rng.chance(1, 4),
             fix_mask_seed: if rng.chance(1, 5) { rng.next_u64() | 1 } else { 0 },
+            concurrent_callers: rng.chance(1, 5),
         }
     }
     fn run(&self, c: &Case, rec: &mut Rec) -> Result<(), Violation> {
@@ -389,6 +419,11 @@ impl Harness for C19 {
         if c.fix_mask_seed != 0 {
             let mut x = c.clone();
             x.fix_mask_seed = 0;
+            out.push(x);
+        }
+        if c.concurrent_callers {
+            let mut x = c.clone();
+            x.concurrent_callers = false;
             out.push(x);
         }
         if c.executions > 1 {
@@ -452,7 +487,7 @@ pub fn nondet_selftest(seed: u64, n_cases: u64) -> i32 {
         let (b2, s2) = (base.clone(), sh.clone());
         let r = simcore::driver::guarded(move || {
             let sched = UncontrolledNondeterminismCheckScheduler::new(RandomScheduler::new_from_seed(c.sched_seed, 3));
-            Runner::new(sched, shuttle_config()).run(move || scenario::<Kmer6>(&b2, None, &[], 0, &s2));
+            Runner::new(sched, shuttle_config()).run(move || scenario::<Kmer6>(&b2, None, &[], 0, false, &s2));
         });
         execs += sh.lock().unwrap().executions;
         if let Err((loc, msg)) = r {
